@@ -958,6 +958,29 @@ def common_summaries():
                 outs.append((s, ('CALL', c[1], [] if is_opt else [payload0(ex, s, c[0], 1)], None)))
         return outs
 
+    @reg(r'^(std::option::)?Option::<.*>::filter::<')
+    def o_filter(ex, st, fn, argv):
+        """Some(x) if the predicate holds for &x, else None"""
+        o = as_enum(ex, st, argv[0])
+        targs = first_targ(fn)
+        outs = []
+        for (s, c, some) in ex.fork_on(st, o.disc_bv() == 1, (o, argv[1])):
+            if some:
+                v = payload0(ex, s, c[0], 1, subst(targs[0], ex.cur_bind(s)) if targs else None)
+                def post(ex_, st_, rv, v=v):
+                    return ('REDISPATCH', '__verif::opt_filter_after', [rv, v])
+                outs.append((s, ('CALL', c[1], [Ref(Cell(v, 'filter.elem'))], ('custom', post))))
+            else:
+                outs.append((s, mk_option()))
+        return outs
+
+    @reg(r'^__verif::opt_filter_after$')
+    def o_filter_after(ex, st, fn, argv):
+        outs = []
+        for (s, c, keep) in ex.fork_on(st, argv[0].b, (argv[1],)):
+            outs.append((s, mk_option(c[0]) if keep else mk_option()))
+        return outs
+
     @reg(r'^(std::option::)?Option::<.*>::map_or::<')
     def o_map_or(ex, st, fn, argv):
         """opt.map_or(default, f): default when None (the closure is dropped), f(x) when Some(x) (the default is dropped)"""
